@@ -1,7 +1,1030 @@
 package main
 
-import "verifharness/engine"
+// The program space.
+//
+//  1. template grammar: ~50 constructs, each with one hole; every ordered pair outer[inner[n]] (and every
+//     construct alone) is placed in a method body (quick) and additionally in every execution context
+//     (thorough): top level, closure, generator, async function, initialiser, setter, class body.
+//  2. the body/wrapper family of C15 and the binding/context/use family of C01 (tables copied: those checks are
+//     `package main`), the control-flow chains (construct chain x exit statement), closure terms and
+//     short-circuit expressions of package mini (the spaces of C14 and C13).
+//
+// The observable of a program does not matter here (no semantic oracle): what is checked is the bytecode of
+// every function it compiles to, and that the VM's operand stack behaves as the model says while it runs.
 
-const spaceRule = "TODO"
+import (
+	"fmt"
+	"strings"
 
-func enumerate(c *engine.Ctx) {}
+	"verifharness/elkrun"
+	"verifharness/engine"
+	"verifharness/mini"
+)
+
+const spaceRule = "(1) every construct and every ordered pair outer[inner] of a template grammar of constructs (locals, arithmetic/bitwise/comparison operators incl. Float/BigInt/fixed-width, if/unless/ternary-modifier, while/until/loop/for-in/fornum as statements and as values, labelled break/continue with values, " +
+	"return, throw/do-catch-finally (with patterns and stack-trace variable), defer, switch with literal/range/list/tuple/map/record/object/binding/alternative patterns, closures with upvalues, string/symbol/regex interpolation, list/tuple/map/record/set/range literals incl. nested and splats of dynamic elements, " +
+	"&&/||/??, must/try/as, compound assignment incl. ||= &&= ??= and subscript/ivar targets, classes with attrs/init/getters/setters/methods/singleton/mixins/structs, modules, constants, macros with quote/unquote, select, go, generators, async/await, tail calls, optional/rest/named arguments) " +
+	"in a method body (thorough: and in 7 more execution contexts); (2) the C15 body x wrapper family, the C01 binding x context x use family, mini's control-flow chains of depth <= 2 with every exit statement (thorough: depth <= 3 on the core variants), closure terms up to 5 (thorough 6) statements and short-circuit expressions with <= 2 operators"
+
+// ------------------------------------------------------------------------------------------------ templates
+
+// block: statements followed by a single-line Int expression; defs are top-level definitions it needs.
+type block struct {
+	defs string
+	pre  []string
+	val  string
+}
+
+func leafBlock() block { return block{val: "n"} }
+
+func ind(ls []string) []string {
+	out := make([]string, len(ls))
+	for i, l := range ls {
+		out[i] = "  " + strings.ReplaceAll(l, "\n", "\n  ")
+	}
+	return out
+}
+
+// stmts: the hole as statements ending with `v = <value>` (v must be a declared var).
+func asStmts(h block, v string) []string {
+	return append(append([]string{}, h.pre...), v+" = "+h.val)
+}
+
+// doExpr: the hole as one expression (a do block), usable as an operand while other operands are on the stack.
+func doExpr(h block) string {
+	if len(h.pre) == 0 {
+		return "(" + h.val + ")"
+	}
+	return "do\n" + strings.Join(ind(append(append([]string{}, h.pre...), h.val)), "\n") + "\nend"
+}
+
+func lines(s string) []string { return strings.Split(strings.TrimRight(s, "\n"), "\n") }
+
+// sub replaces @ by the suffix, %S by the hole as statements assigning to h@, %E by the hole as an expression.
+func tmpl(t string, s string, h block) []string {
+	t = strings.ReplaceAll(t, "@", s)
+	var out []string
+	for _, l := range lines(t) {
+		trim := strings.TrimLeft(l, " ")
+		pad := l[:len(l)-len(trim)]
+		if trim == "%S" {
+			for _, x := range asStmts(h, "h"+s) {
+				out = append(out, pad+strings.ReplaceAll(x, "\n", "\n"+pad))
+			}
+			continue
+		}
+		if strings.Contains(l, "%E") {
+			l = strings.ReplaceAll(l, "%E", strings.ReplaceAll(doExpr(h), "\n", "\n"+pad))
+		}
+		out = append(out, l)
+	}
+	return out
+}
+
+type construct struct {
+	name string
+	defs string // top-level definitions, @ = suffix, %S/%E allowed (then the hole lives inside the definition)
+	body string // statements in the function, last line = the value expression
+	// features
+	async bool // needs a thread pool when run
+}
+
+func (c construct) build(s string, h block) block {
+	b := block{defs: h.defs}
+	holeInDefs := strings.Contains(c.defs, "%S") || strings.Contains(c.defs, "%E")
+	if c.defs != "" {
+		b.defs += strings.Join(tmpl(c.defs, s, h), "\n") + "\n"
+	}
+	body := tmpl(c.body, s, h)
+	if holeInDefs {
+		// the hole's own definitions must precede ours: already in h.defs (prepended above)
+	}
+	b.pre = body[:len(body)-1]
+	b.val = body[len(body)-1]
+	return b
+}
+
+const preludeDefs = `using Std::Sync::WaitGroup
+using Std::Elk::AST::*
+def leaf29(x: Int): Int then x + 1
+def thr29(x: Int): Int ! :boom
+  throw :boom if x > 0
+  x
+end
+def any29(x: any): any then x
+`
+
+var constructs = []construct{
+	{name: "locals", body: `var h@: Int = 0
+a@ := n + 1
+var b@: Int = a@ * 2
+val c@ = b@ - 1
+%S
+var d@: Int? = nil
+d@ = h@
+a@ + c@ + h@`},
+	{name: "arith-operand", body: `r@ := (n * 3 - 1) % 7 + %E * 2 - (n / 1)
+r@`},
+	{name: "bitwise-compare", body: `var h@: Int = 0
+%S
+b@ := (h@ << 2) + (h@ >> 1) + (h@ & 3) + (h@ | 4) + (h@ ^ 1) + (~h@) + (-h@) + (+h@) + (h@ ** 2)
+c@ := 0
+c@ += 1 if h@ == 2 && h@ != 3 || h@ === 2 || h@ =~ 2.0
+c@ += 1 if !(h@ < 1) && h@ <= 2 && h@ >= 2 && h@ > 1
+c@ += (h@ <=> 3).to_int
+b@ + c@`},
+	{name: "float-bigint-fixed", body: `var h@: Int = 0
+%S
+f@ := 1.5 * 2.0 - 0.5 / 2.0 + h@.to_float ** 2.0
+g@ := -f@ % 3.0
+bi@ := 100000000000000000000 + h@
+i8@ := 3i8 + 2i8 * 2i8
+u64@ := 3u64 * 2u64 - 1u64
+fl@ := 2.5f32 + 1.0f32
+c@ := 0
+c@ += 1 if f@ > g@ || f@ <= 1.0 || f@ == g@ || f@ != 2.0
+c@ += 1 if i8@ < 9i8 && u64@ >= 5u64
+f@.to_int + (bi@ % 7).to_int + c@`},
+	{name: "if-else", body: `var h@: Int = 0
+r@ := if n > 1
+  %S
+  h@ + 1
+else if n > 0
+  2
+else
+  3
+end
+r@`},
+	{name: "unless-modifiers", body: `var h@: Int = 0
+unless n > 100
+  %S
+else
+  h@ = 5
+end
+h@ += 1 if n > 0
+h@ -= 1 unless n > 0
+t@ := if n > 1 then h@ else 0
+t@`},
+	{name: "while", body: `var h@: Int = 0
+i@ := 0
+s@ := 0
+while i@ < 2
+  %S
+  s@ += h@
+  i@ += 1
+end
+s@`},
+	{name: "until-value", body: `var h@: Int = 0
+i@ := 0
+u@ := until i@ >= 2
+  %S
+  i@ += 1
+  h@
+end
+(u@ ?? 0) + i@`},
+	{name: "loop-break-value", body: `var h@: Int = 0
+i@ := 0
+r@ := loop
+  i@ += 1
+  %S
+  break h@ * 10 if i@ > 1
+end
+r@`},
+	{name: "for-in-range", body: `var h@: Int = 0
+s@ := 0
+for x@ in 1...2
+  %S
+  s@ += h@ + x@
+end
+s@`},
+	{name: "for-in-list", body: `var h@: Int = 0
+s@ := 0
+for x@ in [n, 2, 3]
+  continue if x@ == 2
+  %S
+  s@ += h@ + x@
+  break if x@ > 2
+end
+s@`},
+	{name: "for-in-pattern", body: `var h@: Int = 0
+s@ := 0
+for %[a@, b@] in [%[1, n], %[3, 4]]
+  %S
+  s@ += h@ + a@ + b@
+end
+for k@, v@ in { 1 => n }
+  s@ += k@ + v@
+end
+s@`},
+	{name: "fornum", body: `var h@: Int = 0
+s@ := 0
+fornum i@ := 0; i@ < 2; i@ += 1
+  %S
+  s@ += h@ + i@
+end
+s@`},
+	{name: "labelled-break-continue", body: `var h@: Int = 0
+i@ := 0
+r@ := $l@: loop
+  i@ += 1
+  j@ := 0
+  while j@ < 3
+    j@ += 1
+    continue[$l@] if i@ < 2
+    %S
+    break[$l@] h@ + j@ if j@ > 1
+  end
+end
+r@`},
+	{name: "while-value-continue-value", body: `var h@: Int = 0
+i@ := 0
+w@ := while i@ < 3
+  i@ += 1
+  continue 5 if i@ == 1
+  %S
+  h@
+end
+(w@ ?? 0)`},
+	{name: "early-return", body: `var h@: Int = 0
+if n > 100
+  return 7
+end
+%S
+return h@ if n > 200
+h@`},
+	{name: "do-catch", body: `var h@: Int = 0
+r@ := do
+  %S
+  1 + thr29(h@ - 100) + (2 + thr29(n))
+catch :boom
+  h@ + 1
+end
+r@`},
+	{name: "do-catch-in-catch", body: `var h@: Int = 0
+r@ := do
+  throw :boom if n > 0
+  1
+catch :boom
+  %S
+  h@
+end
+r@`},
+	{name: "do-catch-patterns-stacktrace", body: `var h@: Int = 0
+r@ := do
+  %S
+  throw unchecked "s" if n > 100
+  throw unchecked 5 if h@ > 100
+  throw :boom if n > 0
+  1
+catch ::Std::String() as e@
+  e@.length
+catch 5
+  5
+catch :boom, st@
+  h@ + 2
+catch e@
+  3
+end
+r@`},
+	{name: "do-catch-finally", body: `var h@: Int = 0
+f@ := 0
+r@ := do
+  %S
+  1 + thr29(n)
+catch :boom
+  h@ + 1
+finally
+  f@ += 1
+end
+r@ + f@`},
+	{name: "do-finally-in-finally", body: `var h@: Int = 0
+f@ := 0
+r@ := do
+  n + 1
+finally
+  %S
+  f@ += h@
+end
+r@ + f@`},
+	{name: "do-finally-uncaught", body: `var h@: Int = 0
+f@ := 0
+r@ := do
+  do
+    %S
+    throw :boom if n > 0
+    h@
+  finally
+    f@ += 1
+  end
+catch :boom
+  f@ + 10
+end
+r@`},
+	{name: "loop-finally-break", body: `var h@: Int = 0
+i@ := 0
+f@ := 0
+r@ := loop
+  i@ += 1
+  do
+    %S
+    continue if i@ < 2
+    break h@ if i@ > 1
+  finally
+    f@ += 1
+  end
+end
+r@ + f@`},
+	{name: "nested-finally-labelled-break", body: `var h@: Int = 0
+f@ := 0
+r@ := $o@: loop
+  do
+    while true
+      do
+        %S
+        break[$o@] h@ + 1
+      finally
+        f@ += 1
+      end
+    end
+  finally
+    f@ += 10
+  end
+end
+r@ + f@`},
+	{name: "finally-return", body: `var h@: Int = 0
+f@ := 0
+do
+  %S
+  return h@ if n > 100
+catch e@
+  return 5 if n > 200
+finally
+  f@ += 1
+end
+h@ + f@`},
+	{name: "defer", body: `var h@: Int = 0
+d@ := 0
+defer d@ += 1
+defer
+  %S
+  d@ += h@
+end
+n + d@`},
+	{name: "switch-literals", body: `var h@: Int = 0
+r@ := switch n
+case 0 then 10
+case 1 || 3 then 11
+case < 0 then 12
+case 5...9 then 13
+case 2
+  %S
+  h@ + 14
+else 15
+end
+r@`},
+	{name: "switch-collections", body: `var h@: Int = 0
+v@ := any29([1, n, 3])
+r@ := switch v@
+case [] then 0
+case [1, 5, *] then 1
+case [1, *m@, 3]
+  %S
+  h@ + m@.length
+case %[a@, b@] then 3
+case { 1 => x@ } then 4
+case %{ k: y@ } then 5
+case ^[1, 2] then 6
+else 7
+end
+r@`},
+	{name: "switch-objects-bindings", body: `var h@: Int = 0
+v@ := any29("str")
+r@ := switch v@
+case nil then 0
+case :sym then 1
+case ::Std::ArrayList(length: > 1 as l@) then 2
+case ::Std::Int() as i@ then 3
+case ::Std::String(length: 3) as s@ && %/s/
+  %S
+  h@ + s@.length
+case 1.5 || "x" then 5
+else 6
+end
+r@`},
+	{name: "switch-no-else", body: `var h@: Int = 0
+var b@: bool = n > 1
+r@ := switch b@
+case true
+  %S
+  h@
+case false then 2
+end
+r@`},
+	{name: "closure-upvalue", body: `var h@: Int = 0
+k@ := n + 1
+f@ := |x@: Int|: Int ->
+  %S
+  k@ += 1
+  x@ + h@ + k@
+end
+g@ := || -> k@ + 1
+l@ := ~> k@ + 2
+f@.(1) + f@.call(2) + g@.() + l@.()`},
+	{name: "closure-nested", body: `var h@: Int = 0
+k@ := n
+mk@ := |a@: Int|: ||: Int ->
+  j@ := a@ + k@
+  ||: Int ->
+    %S
+    j@ += 1
+    k@ += 1
+    h@ + j@ + k@
+  end
+end
+c@ := mk@.(1)
+c@.() + c@.()`},
+	{name: "string-interpolation", body: `s@ := "a#{n}b${%E}c"
+t@ := "x" + s@ + 'raw'
+t@.length`},
+	{name: "symbol-char-regex", body: `var h@: Int = 0
+%S
+y@ := :"s${h@}y"
+c@ := ` + "`c`" + `
+re@ := %/a${h@}b+/i
+r@ := 0
+r@ += 1 if re@.matches("a2bb")
+y@.to_string.length + c@.to_string.length + r@`},
+	{name: "list-tuple-literals", body: `l@ := [1, %E, [n, [2]], *[3, n]]
+t@ := %[n, %[1, 2], %E]
+w@ := %w[a b]
+l@.length + t@.length + w@.length`},
+	{name: "map-record-set-range-literals", body: `m@ := { 1 => n, n => { 2 => %E }, "k": 3 }
+rc@ := %{ a: n, b: %E }
+st@ := ^[1, n, %E]
+rg@ := n...(n + %E)
+ro@ := n<.<9
+rb@ := ...n
+re@ := n...
+cl@ := [n, 2]:4
+m@.length + rc@.length + st@.length + rg@.to_a.length`},
+	{name: "logical-and-or-nilcoalesce", body: `var q@: Int? = nil
+q@ = n if n > 100
+a@ := q@ ?? %E
+var b@: Int? = q@ && %E
+c@ := b@ || a@
+d@ := (n > 1 && n < 5) || n == 9
+r@ := if d@ then c@ else a@
+r@`},
+	{name: "must-try-as", body: `var h@: Int = 0
+var q@: Int? = n
+%S
+m@ := (must q@) + h@
+a@ := any29(h@) as ::Std::Int
+ch@ := Channel::[Int](1)
+ch@ << m@
+t@ := try ch@.pop
+r@ := 0
+r@ += 1 if any29(h@) <: ::Std::Int
+r@ += 1 if a@ <<: ::Std::Int
+m@ + a@ + t@ + r@`},
+	{name: "compound-assignment", body: `var x@: Int = 0
+x@ = %E
+x@ += 1
+x@ -= 1
+x@ *= 2
+x@ /= 2
+x@ %= 50
+x@ **= 2
+x@ <<= 1
+x@ >>= 1
+x@ &= 255
+x@ |= 8
+x@ ^= 1
+x@++
+x@--
+var q@: Int? = nil
+q@ ??= x@
+q@ ||= 5
+q@ &&= 6
+l@ := [1, 2, 3]
+l@[0] = x@
+l@[1] += 2
+l@[2] ||= 4
+hm@ := { "a" => 1 }
+hm@["b"] = x@
+hm@["a"] += 1
+x@ + (q@ ?? 0) + l@[0] + l@[1] + hm@.length`},
+	{name: "class-attrs-init-methods", defs: `class Foo@
+  attr a: Int
+  getter g: Int
+  setter s: Int
+  init(@a: Int, @g: Int = 3)
+    @s = 0
+  end
+  def incr(n: Int): Int
+    var h@: Int = 0
+    %S
+    @a += h@
+    @a
+  end
+  def both: Int then @a + self.g + @s
+  singleton
+    def mk(v: Int): Foo@ then Foo@(v)
+  end
+end
+`, body: `o@ := Foo@(n)
+o@.incr(2)
+o@.a = 7
+o@.s = 2
+p@ := Foo@.mk(3)
+o@.a + p@.g + o@.both`},
+	{name: "class-init-body", defs: `class Ini@
+  attr v: Int
+  init(n: Int, @w: Int = 1)
+    var h@: Int = 0
+    %S
+    @v = h@
+  end
+end
+`, body: `Ini@(n).v`},
+	{name: "class-setter-body", defs: `class Set@
+  attr v: Int
+  init
+    @v = 0
+  end
+  def w=(n: Int)
+    var h@: Int = 0
+    %S
+    @v = h@
+  end
+end
+`, body: `o@ := Set@()
+o@.w = n
+o@.v`},
+	{name: "singleton-method-constants", defs: `module Md@
+  const Z = 7
+  def k(n: Int): Int
+    var h@: Int = 0
+    %S
+    h@ * Z
+  end
+end
+const K@ = 5
+`, body: `Md@.k(n) + K@ + Md@::Z`},
+	{name: "mixin-struct-interface", defs: `mixin Mx@
+  def mx(n: Int): Int
+    var h@: Int = 0
+    %S
+    h@ + 100
+  end
+end
+interface Sh@
+  def area: Int; end
+end
+struct Pt@
+  x: Int
+  y: Int = 2
+end
+class Sq@
+  include Mx@
+  implement Sh@
+  attr side: Int
+  init(@side: Int); end
+  def area: Int then @side * @side
+end
+`, body: `q@ := Sq@(3)
+p@ := Pt@(1)
+q@.mx(n) + q@.area + p@.x + p@.y`},
+	{name: "macro-quote-unquote", defs: `macro mq@(x: IntLiteralNode)
+  quote
+    y := 1 + !{x}
+    y * 2
+  end
+end
+`, body: `var h@: Int = 0
+%S
+r@ := mq@!(3) + h@
+r@`},
+	{name: "select", body: `var h@: Int = 0
+ch@ := Channel::[Int](2)
+ch@ << n
+c2@ := Channel::[Int](2)
+r@ := select
+case w@ := <<ch@
+  %S
+  h@ + w@.unwrap
+case c2@ << 6
+  60
+end
+r@`},
+	{name: "go-waitgroup", body: `var h@: Int = 0
+%S
+wg@ := WaitGroup(1)
+rs@ := Channel::[Int](1)
+hv@ := h@
+go
+  rs@ << hv@ + 1
+  wg@.end
+end
+wg@.wait
+try rs@.pop`},
+	{name: "generator-method", defs: `def *gen@(n: Int): Int
+  var h@: Int = 0
+  i@ := 0
+  while i@ < 2
+    %S
+    yield h@ + i@
+    i@ += 1
+  end
+  do
+    yield 50
+  finally
+    i@ += 1
+  end
+  99
+end
+`, body: `s@ := 0
+for v@ in gen@(n)
+  s@ += v@
+end
+s@`},
+	{name: "async-await", async: true, defs: `async def a1@(n: Int): Int
+  var h@: Int = 0
+  %S
+  h@ + 1
+end
+async def a2@(n: Int): Int
+  v@ := await a1@(n)
+  w@ := 1 + (await a1@(v@))
+  v@ + w@
+end
+`, body: `a2@(n).await_sync`},
+	{name: "tail-call-optional-rest-named", defs: `def opt@(a: Int, b: Int = 2, c: Int = 9): Int then a + b + c
+def rst@(a: Int, *rest: Int): Int then a + rest.length
+def tail@(n: Int): Int
+  var h@: Int = 0
+  %S
+  leaf29(h@)
+end
+def rec@(n: Int, acc: Int): Int
+  return acc if n <= 0
+  rec@(n - 1, acc + n)
+end
+`, body: `tail@(n) + rec@(3, 0) + opt@(1) + opt@(1, c: 5) + opt@(1, 2, 3) + rst@(1) + rst@(1, 2, 3)`},
+	{name: "call-args-operand", body: `r@ := leaf29(leaf29(n) + leaf29(%E)) + [1, 2].length + "ab".length + any29(n).hash.to_int % 1
+r@`},
+	{name: "box", body: `var h@: Int = 0
+%S
+bx@ := &h@
+h@ + 1`},
+}
+
+// ------------------------------------------------------------------------------------------------ contexts
+
+var contexts = []string{"method", "top", "closure", "generator", "async", "init", "setter", "class-body"}
+
+// wrap builds the whole program for the composed block in an execution context.
+func wrap(ctx string, b block) (src string, pool bool) {
+	var s strings.Builder
+	s.WriteString(preludeDefs)
+	s.WriteString(b.defs)
+	body := strings.Join(ind(b.pre), "\n") + "\n"
+	switch ctx {
+	case "method":
+		fmt.Fprintf(&s, "def m29(n: Int): Int\n%s  %s\nend\nprintln(m29(2))\n", body, b.val)
+	case "top":
+		fmt.Fprintf(&s, "n := 2\n%s\nprintln(%s)\n", strings.Join(b.pre, "\n"), b.val)
+	case "closure":
+		fmt.Fprintf(&s, "c29 := |n: Int|: Int ->\n%s  %s\nend\nprintln(c29.(2))\n", body, b.val)
+	case "generator":
+		fmt.Fprintf(&s, "def *g29(n: Int): Int\n%s  yield %s\n  0\nend\nfor v29 in g29(2)\n  println(v29)\nend\n", body, b.val)
+	case "async":
+		fmt.Fprintf(&s, "async def a29(n: Int): Int\n%s  %s\nend\nprintln(a29(2).await_sync)\n", body, b.val)
+		pool = true
+	case "init":
+		fmt.Fprintf(&s, "class W29\n  attr v: Int\n  init(n: Int)\n  %s    @v = %s\n  end\nend\nprintln(W29(2).v)\n", strings.ReplaceAll(body, "\n", "\n  "), b.val)
+	case "setter":
+		fmt.Fprintf(&s, "class W29\n  attr v: Int\n  init\n    @v = 0\n  end\n  def w=(n: Int)\n  %s    @v = %s\n  end\nend\no29 := W29()\no29.w = 2\nprintln(o29.v)\n", strings.ReplaceAll(body, "\n", "\n  "), b.val)
+	case "class-body":
+		fmt.Fprintf(&s, "class W29\n  n := 2\n%s  println(%s)\nend\n", body, b.val)
+	}
+	return s.String(), pool
+}
+
+func needsPool(cs ...construct) bool {
+	for _, c := range cs {
+		if c.async {
+			return true
+		}
+	}
+	return false
+}
+
+// ------------------------------------------------------------------------------------------------ reused families
+
+type body15 struct {
+	name   string
+	lines  []string
+	throws bool
+	noGen  bool
+}
+
+// the bodies of C15 (cmd/c15/main.go)
+var bodies15 = []body15{
+	{"arith", []string{"n + 1"}, false, false},
+	{"local-from-call", []string{"x := leaf15(n)", "x + 1"}, false, false},
+	{"two-locals-from-calls", []string{"x := leaf15(n)", "y := leaf15(x)", "x + y"}, false, false},
+	{"if-else", []string{"r := if n > 1 then n * 2 else n - 1", "r"}, false, false},
+	{"while-accumulate", []string{"s := 0", "i := 0", "while i < n", "  s += i", "  i += 1", "end", "s"}, false, false},
+	{"loop-break-value", []string{"i := 0", "r := loop", "  i += 1", "  break i * 10 if i > n", "end", "r"}, false, false},
+	{"marker-prints", []string{"println(\"m1\")", "x := n * 2", "println(\"m2 \" + x.to_string)", "x"}, false, false},
+	{"throw-conditional", []string{"throw :boom if n > 1", "n"}, true, false},
+	{"throw-after-print", []string{"println(\"before\")", "throw :boom if n == 2", "println(\"after\")", "n + 5"}, true, false},
+	{"catch-inside", []string{"r := do", "  throw :boom if n > 1", "  n", "catch :boom", "  println(\"caught\")", "  -1", "end", "r + 1"}, false, false},
+	{"finally-marker", []string{"r := do", "  println(\"try\")", "  n + 1", "finally", "  println(\"fin\")", "end", "r"}, false, false},
+	{"finally-with-throw", []string{"r := do", "  throw :boom if n > 1", "  n", "finally", "  println(\"fin\")", "end", "r"}, true, false},
+	{"closure-capture", []string{"k := n", "f := |x: Int|: Int -> x + k", "k = k + 1", "f.(10)"}, false, false},
+	{"closure-counter", []string{"c := 0", "inc := ||: Int -> c += 1", "inc.()", "inc.()", "c + n"}, false, false},
+	{"nested-calls", []string{"leaf15(leaf15(n) + leaf15(1))"}, false, false},
+	{"list-build", []string{"l := [1, 2]", "l << n", "l.length + (try l[2])"}, false, false},
+	{"string-interp", []string{"s := \"v#{n}\"", "s.length"}, false, false},
+	{"early-return", []string{"return 7 if n == 0", "x := leaf15(n)", "x"}, false, true},
+	{"must-nil", []string{"var m: Int? = nil", "m = n if n > 0", "(must m) + 1"}, false, false},
+	{"defer-marker", []string{"defer println(\"deferred\")", "println(\"body\")", "n"}, false, false},
+	{"switch", []string{"r := switch n", "case 0 then 10", "case 1 then 11", "else 12", "end", "r"}, false, false},
+	{"unchecked-throw", []string{"throw unchecked :bad if n == 3", "n"}, false, false},
+	{"zero-division", []string{"10 / (n - 1)"}, false, false},
+	{"yield-in-while", []string{"i := 0", "while i < n", "  yield i", "  i += 1", "end", "100"}, false, false},
+	{"yield-in-do-finally", []string{"do", "  yield 1", "  yield 2", "finally", "  println(\"fin\")", "end", "3"}, false, false},
+	{"yield-in-loop-break", []string{"i := 0", "loop", "  break if i >= n", "  yield i * 2", "  i += 1", "end", "yield 77", "-1"}, false, false},
+	{"yield-nested-if", []string{"if n > 1", "  yield 10", "else", "  yield 20", "end", "yield 30", "n"}, false, false},
+}
+
+var wrappers15 = []string{"plain", "generator", "async", "async-nested"}
+
+func program15(b body15, w string, n int) string {
+	thr := ""
+	if b.throws {
+		thr = " ! :boom"
+	}
+	var s strings.Builder
+	s.WriteString("def leaf15(x: Int): Int then x + 1\n")
+	call := ""
+	bd := strings.Join(ind(b.lines), "\n") + "\n"
+	switch w {
+	case "plain":
+		fmt.Fprintf(&s, "def f(n: Int): Int%s\n%send\n", thr, bd)
+		call = fmt.Sprintf("r := f(%d)\n  println(\"=> \" + r.to_string)", n)
+	case "generator":
+		fmt.Fprintf(&s, "def *f(n: Int): Int%s\n%send\n", thr, bd)
+		call = fmt.Sprintf("var last: Int? = nil\n  for v in f(%d)\n    last = v\n  end\n  println(\"=> \" + (must last).to_string)", n)
+	case "async":
+		fmt.Fprintf(&s, "async def f(n: Int): Int%s\n%send\n", thr, bd)
+		call = fmt.Sprintf("r := f(%d).await_sync\n  println(\"=> \" + r.to_string)", n)
+	case "async-nested":
+		fmt.Fprintf(&s, "async def f(n: Int): Int%s\n%send\n", thr, bd)
+		fmt.Fprintf(&s, "async def o(n: Int): Int%s\n  v := await f(n)\n  v\nend\n", thr)
+		call = fmt.Sprintf("r := o(%d).await_sync\n  println(\"=> \" + r.to_string)", n)
+	}
+	fmt.Fprintf(&s, "do\n  %s\ncatch :boom\n  println(\"THROWN :boom\")\nend\n", call)
+	return s.String()
+}
+
+// family A of C01 (cmd/c01/main.go)
+var binds01 = []struct{ name, code string }{
+	{"literal", "x := 5"},
+	{"method-call", "x := leaf01(4)"},
+	{"closure-call", "fcl := |a: Int|: Int -> a + 1\n  x := fcl.(4)"},
+	{"native-call", "x := [1, 2, 3, 4, 5].length"},
+	{"nilable-must", "var y: Int? = leaf01(4)\n  x := must y"},
+	{"branch-value", "x := if leaf01(1) > 1 then 5 else 6"},
+}
+
+var uses01 = []struct{ name, expr string }{
+	{"arith", "x + 1"},
+	{"interp", "\"v#{x}\".length"},
+	{"to-string", "x.to_string.length"},
+	{"direct", "x"},
+	{"compare", "if x > 2 then 1 else 0"},
+	{"index", "try [10, 20, 30, 40, 50, 60, 70][x]"},
+}
+
+var contexts01 = []string{"top", "method", "closure", "generator", "async", "async-nested", "go-thread", "method-with-defer", "do-finally"}
+
+func family01(ctx string, b, u int) string {
+	bind, use := binds01[b].code, uses01[u].expr
+	var s strings.Builder
+	fmt.Fprintf(&s, "def leaf01(n: Int): Int then n + 1\n")
+	switch ctx {
+	case "top":
+		fmt.Fprintf(&s, "%s\nr := %s\nprintln(r.inspect)\n", strings.ReplaceAll(bind, "\n  ", "\n"), use)
+	case "method":
+		fmt.Fprintf(&s, "def m(k: Int): Int\n  %s\n  %s\nend\nprintln(m(1).inspect)\n", bind, use)
+	case "method-with-defer":
+		fmt.Fprintf(&s, "def m(k: Int): Int\n  defer println(\"d\")\n  %s\n  %s\nend\nprintln(m(1).inspect)\n", bind, use)
+	case "do-finally":
+		fmt.Fprintf(&s, "def m(k: Int): Int\n  do\n    %s\n    return %s\n  finally\n    println(\"f\")\n  end\n  0\nend\nprintln(m(1).inspect)\n", strings.ReplaceAll(bind, "\n  ", "\n    "), use)
+	case "closure":
+		fmt.Fprintf(&s, "c := |k: Int|: Int ->\n  %s\n  %s\nend\nprintln(c.(1).inspect)\n", bind, use)
+	case "generator":
+		fmt.Fprintf(&s, "def *g(k: Int): Int\n  %s\n  yield %s\n  0\nend\nfor v in g(1)\n  println(v.inspect)\nend\n", bind, use)
+	case "async":
+		fmt.Fprintf(&s, "async def a(k: Int): Int\n  %s\n  %s\nend\nprintln(a(1).await_sync.inspect)\n", bind, use)
+	case "async-nested":
+		fmt.Fprintf(&s, "async def a(k: Int): Int\n  %s\n  %s\nend\nasync def o(k: Int): Int\n  v := await a(k)\n  v\nend\nprintln(o(1).await_sync.inspect)\n", bind, use)
+	case "go-thread":
+		fmt.Fprintf(&s, "using Std::Sync::WaitGroup\nch := Channel::[Int](1)\nwg := WaitGroup(1)\ngo\n  %s\n  ch << (%s)\n  wg.end\nend\nwg.wait\nprintln((try ch.pop).inspect)\n", bind, use)
+	}
+	return s.String()
+}
+
+// ------------------------------------------------------------------------------------------------ enumeration
+
+func runPrograms(r *engine.R, ps []program) {
+	for _, p := range ps {
+		for _, abort := range []bool{false, true} {
+			checkProgram(r, p, abort)
+			elkrun.ResetRuntime()
+		}
+	}
+	if len(ps) > 0 {
+		r.Sample(ps[len(ps)-1].src)
+	}
+}
+
+func enumerate(c *engine.Ctx) {
+	// (1) template grammar
+	ctxs := []string{"method"}
+	if c.Thorough {
+		ctxs = contexts
+	}
+	for _, ctx := range contexts {
+		ctx := ctx
+		// every construct alone, in every context (both tiers)
+		for i := range constructs {
+			ci := constructs[i]
+			c.Case(fmt.Sprintf("single/%s/%s", ctx, ci.name), func(r *engine.R) {
+				b := ci.build("o", leafBlock())
+				src, pool := wrap(ctx, b)
+				runPrograms(r, []program{{id: "single/" + ctx + "/" + ci.name, construct: ci.name + " in " + ctx, src: src, pool: pool || ci.async}})
+			})
+		}
+	}
+	for _, ctx := range ctxs {
+		ctx := ctx
+		for i := range constructs {
+			co := constructs[i]
+			// one case per (context, outer): all inner constructs
+			c.Case(fmt.Sprintf("pair/%s/%s", ctx, co.name), func(r *engine.R) {
+				var ps []program
+				for j := range constructs {
+					cin := constructs[j]
+					b := co.build("o", cin.build("i", leafBlock()))
+					src, pool := wrap(ctx, b)
+					ps = append(ps, program{id: "pair/" + ctx + "/" + co.name + "[" + cin.name + "]", construct: co.name + "[" + cin.name + "] in " + ctx, src: src, pool: pool || co.async || cin.async})
+				}
+				runPrograms(r, ps)
+			})
+		}
+	}
+	// (2a) C15 bodies x wrappers
+	for _, b := range bodies15 {
+		b := b
+		c.Case("c15/"+b.name, func(r *engine.R) {
+			var ps []program
+			for _, w := range wrappers15 {
+				yields := strings.HasPrefix(b.name, "yield-")
+				if (w == "generator" && b.noGen) || (yields && w != "generator") {
+					continue
+				}
+				for _, n := range []int{0, 2} {
+					ps = append(ps, program{id: fmt.Sprintf("c15/%s/%s/n=%d", b.name, w, n), construct: "c15 body " + b.name + " as " + w, src: program15(b, w, n), pool: strings.HasPrefix(w, "async")})
+				}
+			}
+			runPrograms(r, ps)
+		})
+	}
+	// (2b) C01 family A
+	for _, ctx := range contexts01 {
+		for b := range binds01 {
+			ctx, b := ctx, b
+			c.Case(fmt.Sprintf("c01/%s/%s", ctx, binds01[b].name), func(r *engine.R) {
+				var ps []program
+				for u := range uses01 {
+					ps = append(ps, program{id: fmt.Sprintf("c01/%s/%s/%s", ctx, binds01[b].name, uses01[u].name), construct: "c01 " + binds01[b].name + "/" + uses01[u].name + " in " + ctx, src: family01(ctx, b, u), pool: strings.HasPrefix(ctx, "async")})
+				}
+				runPrograms(r, ps)
+			})
+		}
+	}
+	// (2c) mini: control-flow chains x exits
+	emitCF := func(prefix string, o mini.CFOpts) {
+		var chunk []*mini.CFCase
+		k := 0
+		flush := func() {
+			if len(chunk) == 0 {
+				return
+			}
+			cs := chunk
+			chunk = nil
+			id := fmt.Sprintf("%s/%05d %s", prefix, k, cs[0].Shape())
+			k++
+			c.Case(id, func(r *engine.R) {
+				var ps []program
+				for _, cc := range cs {
+					d := mini.RenameDef(cc.Def, "f29")
+					call := mini.GuardedCall(d.Name, cc.Args...)
+					src := mini.Prelude + mini.PrintDef(d, mini.PrintOpts{}) + mini.PrintStmts([]mini.Stmt{call}, mini.PrintOpts{})
+					ps = append(ps, program{id: prefix + "/" + cc.Shape(), construct: "cf " + cc.Shape(), src: src})
+				}
+				runPrograms(r, ps)
+			})
+		}
+		mini.EnumCF(o, func(cc *mini.CFCase) bool {
+			chunk = append(chunk, cc)
+			if len(chunk) == 40 {
+				flush()
+			}
+			return true
+		})
+		flush()
+	}
+	if !c.Thorough {
+		emitCF("cf", mini.CFOpts{MinDepth: 0, MaxDepth: 1, CondExits: true})
+		emitCF("cf2-core", mini.CFOpts{MinDepth: 2, MaxDepth: 2, CondExits: false, Variants: mini.CFCore})
+	} else {
+		emitCF("cf", mini.CFOpts{MinDepth: 0, MaxDepth: 2, CondExits: true})
+		emitCF("cf3-core", mini.CFOpts{MinDepth: 3, MaxDepth: 3, CondExits: false, Variants: mini.CFCore})
+	}
+	// (2d) mini: closure terms
+	maxNodes := 5
+	if c.Thorough {
+		maxNodes = 6
+	}
+	clOpts := mini.ClOpts{MaxVars: 2, MaxNest: 2, Loops: true, List: true, Pass: true, Frames: "cmt", CrossWrite: true}
+	for n := 1; n <= maxNodes; n++ {
+		for _, site := range []string{"top", "method"} {
+			var chunk []*mini.ClCase
+			k := 0
+			n, site := n, site
+			flush := func() {
+				if len(chunk) == 0 {
+					return
+				}
+				cs := chunk
+				chunk = nil
+				id := fmt.Sprintf("cl/n=%d/%s/%05d %s", n, site, k, cs[0].Shape())
+				k++
+				c.Case(id, func(r *engine.R) {
+					var ps []program
+					for _, cc := range cs {
+						p := cc.Program(site, "_29")
+						src := mini.Prelude + mini.PrintProgram(p, mini.PrintOpts{})
+						ps = append(ps, program{id: fmt.Sprintf("cl/%s/%s", site, cc.Shape()), construct: "closure term " + cc.Shape() + " at " + site, src: src})
+					}
+					runPrograms(r, ps)
+				})
+			}
+			mini.EnumClosures(clOpts, n, func(cc *mini.ClCase) bool {
+				chunk = append(chunk, cc)
+				if len(chunk) == 40 {
+					flush()
+				}
+				return true
+			})
+			flush()
+		}
+	}
+	// (2e) mini: short-circuit expressions
+	for _, ops := range []int{1, 2} {
+		var chunk []*mini.LogicCase
+		k := 0
+		ops := ops
+		flush := func() {
+			if len(chunk) == 0 {
+				return
+			}
+			cs := chunk
+			chunk = nil
+			id := fmt.Sprintf("logic/ops=%d/%05d", ops, k)
+			k++
+			c.Case(id, func(r *engine.R) {
+				var ps []program
+				for i, lc := range cs {
+					main := []mini.Stmt{&mini.PrintE{E: lc.E, Show: true}, &mini.If{C: lc.E, Then: []mini.Stmt{&mini.Print{Tag: "T"}}, Else: []mini.Stmt{&mini.Print{Tag: "F"}}}}
+					src := mini.Prelude + "do\n" + mini.PrintStmts(main, mini.PrintOpts{}) + "end\n"
+					ps = append(ps, program{id: fmt.Sprintf("logic/%d/%d", ops, i), construct: "short-circuit expression", src: src})
+				}
+				runPrograms(r, ps)
+			})
+		}
+		mini.EnumLogic(ops, false, func(lc *mini.LogicCase) bool {
+			chunk = append(chunk, lc)
+			if len(chunk) == 60 {
+				flush()
+			}
+			return true
+		})
+		flush()
+	}
+}
